@@ -5,9 +5,11 @@ CONSTANTS
   AsCoded = FALSE
   Crashes = FALSE
   Batched = TRUE
+  Recheck = TRUE
   Depth = 4
   Forks = TRUE
   Concs = TRUE
   Early = FALSE
+  SplitLock = FALSE
 INVARIANTS GenInv Dump
 CHECK_DEADLOCK FALSE
